@@ -16,6 +16,7 @@ package dispatchcloud
 
 import (
 	"fmt"
+	"runtime"
 	"strings"
 	"testing"
 
@@ -516,14 +517,89 @@ func c16ImageClass(q *c16Req, img int64) string {
 // the run to mean anything (checked at the end of TestVerifC16).
 var c16Seen = map[string]int{}
 
-func c16Tally(run *verifkit.Run, name string) {
+// c16Rep receives what one evaluation finds. In probe mode (used to find out
+// which boundary of a witness is necessary) nothing reaches the result file:
+// only the symptom classes are collected.
+type c16Rep struct {
+	run     *verifkit.Run
+	probe   bool
+	classes map[string]bool
+}
+
+func (r *c16Rep) tally(name string) {
+	if r.probe {
+		return
+	}
 	c16Seen[name]++
-	run.Count(name, 1)
+	r.run.Count(name, 1)
+}
+
+func (r *c16Rep) eval(n int) {
+	if !r.probe {
+		r.run.Eval(n)
+	}
+}
+
+func (r *c16Rep) viol(class, feat, detail string, w interface{}) {
+	if r.probe {
+		r.classes[class] = true
+		return
+	}
+	sig := "C16:a:" + class
+	if feat != "" {
+		sig += ":" + feat
+	}
+	r.run.Violation(sig, detail, w)
+}
+
+// c16Necessary finds which exact-fit boundaries the symptom needs. The
+// table is first cut down to the types involved (the passed-over adequate
+// type and, if any, the type that was chosen instead); if the symptom
+// survives that, a dimension is necessary when giving the passed-over type a
+// little more of it makes the real code behave. Every probe is repeated
+// because the code under test iterates over a map.
+func c16Necessary(types []c16Type, q *c16Req, class string, passedOver, chosen int) string {
+	probe := func(grow string) bool {
+		small := []c16Type{types[passedOver]}
+		if chosen >= 0 {
+			small = append(small, types[chosen])
+		}
+		switch grow {
+		case "vcpus":
+			small[0].VCPUs++
+		case "ram":
+			small[0].RAM += 4 // clear of the indifference band
+		case "scratch":
+			small[0].Scratch++
+		}
+		cc := c16ToCluster(small)
+		for rep := 0; rep < 6; rep++ {
+			pr := &c16Rep{probe: true, classes: map[string]bool{}}
+			c16CheckChoice(pr, small, cc, q)
+			if pr.classes[class] {
+				return true
+			}
+		}
+		return false
+	}
+	if !probe("") {
+		return "depends-on-other-types-in-table"
+	}
+	var need []string
+	for _, dim := range []string{"vcpus", "ram", "scratch"} {
+		if !probe(dim) {
+			need = append(need, dim)
+		}
+	}
+	if len(need) == 0 {
+		return "with-slack-in-every-dimension"
+	}
+	return "at-exact-fit-of-" + strings.Join(need, "+")
 }
 
 // c16CheckChoice runs the real ChooseInstanceType on (types, q) and judges
 // the result. It returns the feature tuple of the evaluation.
-func c16CheckChoice(run *verifkit.Run, types []c16Type, cc *arvados.Cluster, q *c16Req) string {
+func c16CheckChoice(rep *c16Rep, types []c16Type, cc *arvados.Cluster, q *c16Req) string {
 	cc.Containers.ReserveExtraRAM = arvados.ByteSize(q.Reserve)
 	ctr := c16ToContainer(q)
 	needS, tmp, img := c16RefScratch(q)
@@ -531,17 +607,17 @@ func c16CheckChoice(run *verifkit.Run, types []c16Type, cc *arvados.Cluster, q *
 	// the exported estimate the choice is built on ("scratch space for tmp
 	// mounts and for loading the Docker image")
 	if est := EstimateScratchSpace(ctr); est != needS {
-		kind := "tmp"
+		kind := "tmp-mounts"
 		if img > 0 {
 			kind = "image"
 		} else if q.Image != "" {
 			kind = "non-pdh-image"
 		}
-		run.Violation("C16:a:scratch-estimate:"+kind,
+		rep.viol("scratch-estimate", kind,
 			fmt.Sprintf("EstimateScratchSpace=%d, reference max(tmp=%d,img=%d)+img=%d for image %q", est, tmp, img, needS, q.Image),
 			c16Witness{Types: nil, Req: *q, Got: fmt.Sprint(est)})
 	}
-	run.Eval(1)
+	rep.eval(1)
 
 	verd := make([]c16Verdict, len(types))
 	nDef, nPoss := 0, 0
@@ -560,7 +636,7 @@ func c16CheckChoice(run *verifkit.Run, types []c16Type, cc *arvados.Cluster, q *
 	}
 
 	best, err := ChooseInstanceType(cc, ctr)
-	run.Eval(1)
+	rep.eval(1)
 
 	wit := func(note string) c16Witness {
 		w := c16Witness{Types: types, Req: *q, Got: best.Name, Note: note}
@@ -590,6 +666,12 @@ func c16CheckChoice(run *verifkit.Run, types []c16Type, cc *arvados.Cluster, q *
 		}
 		return strings.Join(b, "+")
 	}
+	necessary := func(class string, passedOver, chosen int) string {
+		if rep.probe {
+			return ""
+		}
+		return c16Necessary(types, q, class, passedOver, chosen)
+	}
 
 	outcome := ""
 	if err == nil {
@@ -601,54 +683,54 @@ func c16CheckChoice(run *verifkit.Run, types []c16Type, cc *arvados.Cluster, q *
 			}
 		}
 		if ci < 0 || cc.InstanceTypes[best.Name] != best {
-			run.Violation("C16:a:returned-type-not-configured", fmt.Sprintf("returned %+v which is not an entry of the table", best), wit(""))
+			rep.viol("returned-type-not-configured", "", fmt.Sprintf("returned %+v which is not an entry of the table", best), wit(""))
 			return "bad"
 		}
 		v := verd[ci]
 		t := &types[ci]
 		if !v.vOK {
-			run.Violation("C16:a:inadequate:vcpus", fmt.Sprintf("chose %s with %d VCPUs for a container needing %d", t.Name, t.VCPUs, q.VCPUs), wit(""))
+			rep.viol("inadequate:vcpus", "", fmt.Sprintf("chose %s with %d VCPUs for a container needing %d", t.Name, t.VCPUs, q.VCPUs), wit(""))
 		}
 		if !v.pOK {
-			run.Violation(fmt.Sprintf("C16:a:inadequate:preemptible:want-%v", q.Preemptible), fmt.Sprintf("chose %s (preemptible=%v) for a container with preemptible=%v", t.Name, t.Preemptible, q.Preemptible), wit(""))
+			rep.viol("inadequate:preemptible", fmt.Sprintf("container-preemptible-%v", q.Preemptible), fmt.Sprintf("chose %s (preemptible=%v) for a container with preemptible=%v", t.Name, t.Preemptible, q.Preemptible), wit(""))
 		}
 		if !v.sOK {
-			why := "tmp"
+			why := "tmp-mounts"
 			if img > 0 && t.Scratch >= tmp {
 				why = "image" // the tmp mounts alone would have fitted
 			}
-			run.Violation("C16:a:inadequate:scratch:"+why, fmt.Sprintf("chose %s with scratch %d; tmp mounts need %d, image %d => %d", t.Name, t.Scratch, tmp, img, needS), wit(""))
+			rep.viol("inadequate:scratch", why, fmt.Sprintf("chose %s with scratch %d; tmp mounts need %d, image %d => %d", t.Name, t.Scratch, tmp, img, needS), wit(""))
 		}
 		if !v.ramPos {
-			why := "plain"
+			why := "ram"
 			switch {
 			case (t.RAM+1)*95 >= (N-q.Reserve)*100 && q.Reserve > 0:
-				why = "reserve-extra-ram"
+				why = "reserve-extra-ram-needed"
 			case (t.RAM+1)*95 >= (N-q.KeepCache)*100 && q.KeepCache > 0:
-				why = "keep-cache-ram"
+				why = "keep-cache-ram-needed"
 			case t.RAM >= N:
-				why = "discount"
+				why = "fits-only-without-5pct-discount"
 			}
-			run.Violation("C16:a:inadequate:ram:"+why, fmt.Sprintf("chose %s with RAM %d; need (ram %d + keep cache %d + reserve %d)=%d within 95%% of it (%d*95 < %d*100 by more than one byte)", t.Name, t.RAM, q.RAM, q.KeepCache, q.Reserve, N, t.RAM, N), wit(""))
+			rep.viol("inadequate:ram", why, fmt.Sprintf("chose %s with RAM %d; need (ram %d + keep cache %d + reserve %d)=%d within 95%% of it (%d*95 < %d*100 by more than one byte)", t.Name, t.RAM, q.RAM, q.KeepCache, q.Reserve, N, t.RAM, N), wit(""))
 		}
 		if cheapestDef >= 0 && types[cheapestDef].Price < t.Price {
 			c := &types[cheapestDef]
-			run.Violation("C16:a:not-cheapest:cheaper-"+boundaryOf(c), fmt.Sprintf("chose %s (price %v) although %s (price %v) satisfies every constraint", t.Name, t.Price, c.Name, c.Price), wit("cheaper adequate: "+c.Name))
+			rep.viol("not-cheapest", necessary("not-cheapest", cheapestDef, ci), fmt.Sprintf("chose %s (price %v) although %s (price %v, %s) satisfies every constraint", t.Name, t.Price, c.Name, c.Price, boundaryOf(c)), wit("cheaper adequate: "+c.Name))
 		}
 		outcome = "ok:" + boundaryOf(t)
 		if !v.ramDef && v.ramPos {
 			outcome += ":band"
-			c16Tally(run, "a_chosen_in_ram_band")
+			rep.tally("a_chosen_in_ram_band")
 		}
-		c16Tally(run, "a_chosen")
+		rep.tally("a_chosen")
 	} else {
 		cerr, isC := err.(ConstraintsNotSatisfiableError)
 		if nDef > 0 {
 			c := &types[cheapestDef]
-			run.Violation("C16:a:error-though-satisfiable:"+boundaryOf(c), fmt.Sprintf("error %q although %s satisfies every constraint", err, c.Name), wit("adequate: "+c.Name))
+			rep.viol("error-though-satisfiable", necessary("error-though-satisfiable", cheapestDef, -1), fmt.Sprintf("error %q although %s (%s) satisfies every constraint", err, c.Name, boundaryOf(c)), wit("adequate: "+c.Name))
 		}
 		if !isC {
-			run.Violation("C16:a:unsatisfiable:wrong-error-type", fmt.Sprintf("error is %T (%v), want ConstraintsNotSatisfiableError", err, err), wit(""))
+			rep.viol("unsatisfiable:wrong-error-type", "", fmt.Sprintf("error is %T (%v), want ConstraintsNotSatisfiableError", err, err), wit(""))
 		} else {
 			// must list every configured type (as a multiset)
 			want := map[arvados.InstanceType]int{}
@@ -660,7 +742,7 @@ func c16CheckChoice(run *verifkit.Run, types []c16Type, cc *arvados.Cluster, q *
 			}
 			for it, d := range want {
 				if d != 0 {
-					run.Violation("C16:a:unsatisfiable:available-types-list", fmt.Sprintf("AvailableTypes has %d entries for %d configured types; entry %q off by %d", len(cerr.AvailableTypes), len(types), it.Name, -d), wit(""))
+					rep.viol("unsatisfiable:available-types-list", "", fmt.Sprintf("AvailableTypes has %d entries for %d configured types; entry %q off by %d", len(cerr.AvailableTypes), len(types), it.Name, -d), wit(""))
 					break
 				}
 			}
@@ -668,12 +750,12 @@ func c16CheckChoice(run *verifkit.Run, types []c16Type, cc *arvados.Cluster, q *
 		outcome = "err"
 		if nPoss > 0 {
 			outcome = "err:band"
-			c16Tally(run, "a_error_in_ram_band")
+			rep.tally("a_error_in_ram_band")
 		}
-		c16Tally(run, "a_unsatisfiable")
+		rep.tally("a_unsatisfiable")
 	}
 	if nPoss > nDef {
-		c16Tally(run, "a_band_types_present")
+		rep.tally("a_band_types_present")
 	}
 	// how contested was the choice
 	ties := 0
@@ -684,12 +766,12 @@ func c16CheckChoice(run *verifkit.Run, types []c16Type, cc *arvados.Cluster, q *
 			}
 		}
 		if ties > 1 {
-			c16Tally(run, "a_cheapest_tied")
+			rep.tally("a_cheapest_tied")
 		}
-		// a cheaper type that fails exactly one constraint
+		// a cheaper type exists that must not be chosen
 		for i := range types {
 			if types[i].Price < types[cheapestDef].Price && !verd[i].poss() {
-				c16Tally(run, "a_cheaper_but_inadequate_seen")
+				rep.tally("a_cheaper_but_inadequate_seen")
 				break
 			}
 		}
@@ -746,6 +828,7 @@ func c16CheckImageEstimate(run *verifkit.Run, rng *verifkit.Rand) {
 func TestVerifC16(t *testing.T) {
 	run := verifkit.Start(t, "C16")
 	defer run.Finish()
+	defer runtime.GOMAXPROCS(runtime.GOMAXPROCS(2))
 
 	nCases := run.N(50000, 500000)
 	perTable := run.N(20, 40)
@@ -753,10 +836,11 @@ func TestVerifC16(t *testing.T) {
 		types := c16GenTypes(rng)
 		cc := c16ToCluster(types)
 		run.Input(map[string]interface{}{"types": types}, false)
+		rep := &c16Rep{run: run}
 		nontrivial := false
 		for k := 0; k < perTable; k++ {
 			q := c16GenReq(rng, types)
-			f := c16CheckChoice(run, types, cc, &q)
+			f := c16CheckChoice(rep, types, cc, &q)
 			run.Feature(f)
 			run.Count("a_choices", 1)
 			nontrivial = true
@@ -797,7 +881,7 @@ func c16ExhaustiveRAM(run *verifkit.Run, ram int64) {
 		cc := c16ToCluster(types)
 		for need := int64(0); need < 450; need++ {
 			q := c16Req{VCPUs: 1, RAM: need / 2, KeepCache: need - need/2 - need/5, Reserve: need / 5, Aim: "exhaustive-ram"}
-			c16CheckChoice(run, types, cc, &q)
+			c16CheckChoice(&c16Rep{run: run}, types, cc, &q)
 			run.Count("a_exhaustive_ram_grid", 1)
 		}
 	}
